@@ -25,7 +25,6 @@ func H_indep() {
 	cfgA := vAppCfg{spec: sa, envAll: true, policy: flag.ContinueOnError, shared: true}
 	vEnvCandidates = 15
 	env := vSymbolicEnv()
-	_ = env
 	switch mode {
 	case "footprint":
 		stdErr = vDiscard{}
@@ -61,10 +60,29 @@ func H_indep() {
 		vCover("interfere")
 	case "determinism":
 		vMapOrder(2)
-		r1 := vRunTable(cfgA, argvA)
-		r2 := vRunTable(cfgA, argvA)
+		// the same application rebuilt and rerun on the very same argument vector
+		full := append([]string{"app"}, argvA...)
+		r1 := vBuildTable(cfgA).run(full)
+		r2 := vBuildTable(cfgA).run(full)
 		vObserveOutcome("r1", r1)
+		vAssert(r1.argvIntact && r2.argvIntact, "C20: the library modified the caller's argument vector")
 		vAssert(vSameOutcome(r1, r2), "C20: rebuilding and rerunning the same application gave a different outcome")
 		vCover("determinism")
+	case "envtime":
+		// the outcome depends on the environment at declaration time only: variables that
+		// appear between declaration and Run (set by another application's Action, say)
+		// change nothing
+		ref := vBuildTable(cfgA).run(append([]string{"app"}, argvA...))
+		app := vBuildTable(cfgA)
+		for i := 0; i < nOpts; i++ {
+			if !env[i] && vNondetBool("late."+vEnvNames[i]) {
+				vSetenv(vEnvNames[i], vEnvVals[i])
+			}
+		}
+		late := app.run(append([]string{"app"}, argvA...))
+		vObserveOutcome("ref", ref)
+		vObserveOutcome("late", late)
+		vAssert(vSameOutcome(ref, late), "C20: the outcome depends on the environment at Run time, not only at declaration time")
+		vCover("envtime")
 	}
 }
